@@ -35,6 +35,8 @@ What is compared, per program:
 
 from __future__ import annotations
 
+import ctypes  # noqa: F401 - see _preload
+import gc
 import os
 import random
 import signal
@@ -71,6 +73,23 @@ JAVA = "-DTLA-Library=" + os.path.join(os.path.dirname(os.path.dirname(os.path.d
 TLC_WORKERS = 2      # per TLC process; at most two processes at a time (<= 4 workers in total)
 HANG_LIMIT = 0.4     # seconds after which float(exponent) is declared non-terminating
 PASS_LIMIT = 10.0
+
+
+def _preload():
+    """tlc.run starts the model checker from worker threads with a preexec_fn that imports ctypes.  A child forked
+    while the main thread is inside an import (the replay imports parts of ufl lazily) inherits that module's
+    import lock in the locked state and, importing ctypes from scratch, waits for it for ever (observed: the
+    check hung on a loaded machine).  With everything imported before the first worker thread starts, the import
+    statements executed after a fork are look-ups in sys.modules and take no lock."""
+    import signal as _signal  # noqa: F401
+
+    import ufl  # noqa: F401
+    import ufl.algorithms  # noqa: F401
+    import ufl.algorithms.comparison_checker  # noqa: F401
+    import ufl.algorithms.remove_complex_nodes  # noqa: F401
+    import ufl.classes  # noqa: F401
+
+    from .. import elements  # noqa: F401
 
 
 # ------------------------------------------------------------------------------------------------
@@ -114,6 +133,8 @@ def guarded(fn, limit):
     hung, result, error = False, None, None
     saved = list(_CLOCK)
     _CLOCK[:] = [time.thread_time(), limit / 2, time.monotonic() + 30 * limit]
+    collect = gc.isenabled()
+    gc.disable()          # a full collection of the heap of a large slice is not part of the pass
     try:
         try:
             signal.setitimer(signal.ITIMER_REAL, limit, 0.02)
@@ -133,6 +154,8 @@ def guarded(fn, limit):
             continue
     signal.signal(signal.SIGALRM, old)
     _CLOCK[:] = saved
+    if collect:
+        gc.enable()
     if error is not None:
         raise error
     if hung:
@@ -140,20 +163,29 @@ def guarded(fn, limit):
     return result
 
 
-_SECOND_LOOKS = [0]
+_SECOND_LOOKS = {"confirmed": 0, "refuted": 0}
 
 
 def patient(fn):
-    """fn() under PASS_LIMIT; "does not terminate" is only concluded after a second, longer look (the machine is
-    shared: a stall of the whole process has been observed to exhaust the limit on a three-node integrand).  At most
-    two second looks per run: a pass that really hangs is reported without them from then on."""
+    """fn() under PASS_LIMIT; "does not terminate" is only concluded after a second, three times longer look (the
+    machine is shared: on a loaded machine the limit has been observed to run out on three-node integrands).  A
+    second look that returns costs nothing but its time; after two that did not, a pass that really hangs is
+    reported without one."""
     try:
         return guarded(fn, PASS_LIMIT)
     except Hung:
-        if _SECOND_LOOKS[0] >= 2:
+        if _SECOND_LOOKS["confirmed"] >= 2:
             raise
-        _SECOND_LOOKS[0] += 1
-        return guarded(fn, 3 * PASS_LIMIT)
+    try:
+        r = guarded(fn, 3 * PASS_LIMIT)
+    except Hung:
+        _SECOND_LOOKS["confirmed"] += 1
+        raise
+    except BaseException:
+        _SECOND_LOOKS["refuted"] += 1
+        raise
+    _SECOND_LOOKS["refuted"] += 1
+    return r
 
 
 _FLOAT_HANGS = {}
@@ -733,6 +765,7 @@ def run(ctx, args):
     ctx.assume("the wrapped value is modelled locally (each compared node rebuilt on Real(operand)); that the whole integrand then keeps its value is checked on the real result by evaluation, not by TLC")
     ctx.assume("programs whose UFL DAG differs from the program by construction-time folding (literal arithmetic, zero operands, scalar*tensor component tensors) are excluded; remaining simplifications are judged on the real object")
     ctx.assume("math functions other than sqrt (ln, acos, ... of negative reals are complex valued but typed real) are outside the property's quantifier and not generated")
+    _preload()
     only = os.environ.get("VERIF_SLICES")
     sls = [sl for sl in slices(ctx.tier) if not only or sl.name in only.split(",")]
     total = 0
@@ -749,6 +782,8 @@ def run(ctx, args):
             for k, v in j.stats.items():
                 agg[k] = agg.get(k, 0) + v
             print(f"  [{sl.name}] tlc {res.mode} states={res.distinct} {res.wall:.1f}s; programs={n} replay {time.time() - t0:.1f}s; {dict(sorted(j.stats.items()))}", flush=True)
+    if _SECOND_LOOKS["refuted"]:
+        ctx.count("pass_returned_at_second_look_only", _SECOND_LOOKS["refuted"])
     ctx.cov["programs"] = total
     ctx.cov["verdict_table"] = dict(sorted(agg.items()))
     if not only:
